@@ -12,10 +12,11 @@ import (
 	"log"
 	"math/rand"
 	"os"
-	"runtime"
+	"runtime/metrics"
 	"sort"
 	"strconv"
 	"strings"
+	"sync/atomic"
 	"time"
 )
 
@@ -49,6 +50,7 @@ func safeRun1(p *Prop, c string) (obs string) {
 // safeRun adds a watchdog: a case that does not return within caseTimeout is reported as HANG
 // (its goroutine is abandoned).
 func safeRun(p *Prop, c string) string {
+	atomic.StoreUint64(&memBase, heapNow())
 	ch := make(chan string, 1)
 	go func() { ch <- safeRun1(p, c) }()
 	select {
@@ -61,19 +63,32 @@ func safeRun(p *Prop, c string) string {
 
 var caseTimeout = 10 * time.Second
 
-// memWatch ends the process when the code under test allocates without bound (12 GB of live heap, VERIF_MEMLIMIT_MB
-// overrides): the run is then localised to the case like any other crash, instead of taking the machine down.
-func memWatch() {
-	limit := uint64(12 << 30)
-	if v, err := strconv.Atoi(os.Getenv("VERIF_MEMLIMIT_MB")); err == nil && v > 0 {
-		limit = uint64(v) << 20
+// memWatch ends the process when the code under test allocates without bound: more than 6 GB of live heap gained
+// while ONE case runs (VERIF_MEMLIMIT_MB overrides), or 40 GB in all. The run is then localised to the case like any other
+// crash, instead of taking the machine down. (A limit on the total alone was a false alarm: a process that runs thousands
+// of bus cases legitimately grows by gigabytes.)
+var memBase uint64 // live heap when the current case started
+
+func heapNow() uint64 {
+	s := []metrics.Sample{{Name: "/memory/classes/heap/objects:bytes"}}
+	metrics.Read(s)
+	if s[0].Value.Kind() == metrics.KindUint64 {
+		return s[0].Value.Uint64()
 	}
-	var ms runtime.MemStats
+	return 0
+}
+
+func memWatch() {
+	perCase := uint64(6 << 30)
+	if v, err := strconv.Atoi(os.Getenv("VERIF_MEMLIMIT_MB")); err == nil && v > 0 {
+		perCase = uint64(v) << 20
+	}
 	for {
 		time.Sleep(250 * time.Millisecond)
-		runtime.ReadMemStats(&ms)
-		if ms.HeapAlloc > limit {
-			fmt.Fprintf(os.Stderr, "memory limit exceeded: more than %d MB of live heap while running the case\n", limit>>20)
+		h := heapNow()
+		base := atomic.LoadUint64(&memBase)
+		if (h > base && h-base > perCase) || h > 40<<30 {
+			fmt.Fprintf(os.Stderr, "memory limit exceeded: %d MB of live heap, %d MB of it gained while running the case\n", h>>20, (h-base)>>20)
 			os.Exit(86)
 		}
 	}
